@@ -752,7 +752,65 @@ def run_multi(case, ctx):
             'evaluations': len(texts)}
 
 
+_SAMESTAT_TEXTS = [('a\n', 'b\n'), ('ab\nab\n', 'ab\nba\n'), ('x', 'y'), ('line 1\nline 2\n', 'line 1\nline 3\n'),
+                   ('ab' * 5000 + '\n', 'ab' * 4999 + 'ba\n'), (' a \n', ' b \n'), ('a\n\n', '\na\n')]
+
+
+def _samestat_cases():
+    """`equals` between two FILES whose contents differ but whose size and modification time coincide (files unpacked
+    from an archive, copied with attributes, written within one tick of a coarse file-system clock): it is the
+    contents that `equals` speaks about."""
+    for i, (t1, t2) in enumerate(_SAMESTAT_TEXTS):
+        assert len(t1.encode()) == len(t2.encode()) and t1 != t2
+        for where in ('home', 'act'):
+            yield {'part': 'samestat', 'texts': [t1, t2], 'where': where, 'tag': 'samestat-%d-%s' % (i, where)}
+
+
+def run_samestat(case, ctx):
+    ses = ctx.get_session()
+    t1, t2 = case['texts']
+    d = ses.new_case_dir({'one.txt': t1.encode(), 'two.txt': t2.encode(), 'same.txt': t1.encode()})
+    stamp = 1500000000
+    for n in ('one.txt', 'two.txt', 'same.txt'):
+        os.utime(os.path.join(d, n), (stamp, stamp))
+    rel = '-rel-home' if case['where'] == 'home' else '-rel-act'
+    setup = [] if case['where'] == 'home' else ['copy one.txt', 'copy two.txt', 'copy same.txt',
+                                                 '$ touch -d @%d one.txt two.txt same.txt' % stamp]
+    asserts = [
+        ('contents %s one.txt : ! equals -contents-of %s two.txt' % (rel, rel), True),
+        ('contents %s two.txt : ! equals -contents-of %s one.txt' % (rel, rel), True),
+        ('contents %s one.txt : equals -contents-of %s same.txt' % (rel, rel), True),
+        ('contents %s one.txt : ! ( equals -contents-of %s two.txt || equals -contents-of %s two.txt )' % (rel, rel, rel),
+         True),
+        ('contents %s one.txt : equals -contents-of %s two.txt' % (rel, rel), False),
+    ]
+    viol, inconc = [], []
+    for k, (a, holds) in enumerate(asserts):
+        text = ('[setup]\n' + '\n'.join(setup) + '\n' if setup else '') + '[act]\n$ true\n[assert]\n' + a + '\n'
+        with open(os.path.join(d, 't%d.case' % k), 'w') as f:
+            f.write(text)
+        r = ses.run([os.path.join(d, 't%d.case' % k)], cwd=d, mode='normal')
+        ctx.count('c05.matcher_verdicts')
+        ctx.count('c05.same_size_same_mtime_verdicts')
+        if r.timed_out:
+            inconc.append('watchdog')
+            continue
+        want = ('PASS', 0) if holds else ('FAIL', 32)
+        got = (r.out.strip(), r.rc)
+        if got != want:
+            viol.append({'what': 'C05 equals between two files of the same size and modification time (contents %r / %r, '
+                                 'in the %s directory): `%s` gives %s, the texts say %s'
+                                 % (t1[:20], t2[:20], case['where'], a, got[0], want[0]),
+                         'detail': {'case_text': text, 'observed': r.brief()}})
+        ses.clean_tmp()
+    ses.drop(d)
+    return {'classes': [('samestat', case['where'], len(t1))], 'viol': viol, 'inconclusive': inconc,
+            'evaluations': len(asserts)}
+
+
 def cases(tier, seed):
+    for c in _samestat_cases():
+        yield c
     for c in _multi_cases(tier, seed):
         yield c
     for c in _core_cases():
@@ -913,6 +971,8 @@ def _err_excerpt(o):
 def run_case(case, ctx):
     if case.get('part') in ('multi-t', 'multi-m'):
         return run_multi(case, ctx)
+    if case.get('part') == 'samestat':
+        return run_samestat(case, ctx)
     ses = ctx.get_session()
     text = case['text']
     items = case['items']
